@@ -1252,6 +1252,15 @@ pub fn end_of_run(sim: &mut Sim) {
     let running = sim.running;
     for c in 0..sim.clients.len() {
         let Some(sess) = sim.clients[c].sess.as_ref() else { continue };
+        if sess.up() && running && !sess.authorized && sim.prof.app.auth == 0 && sim.prof.wrong_proto & (1 << c) == 0 && !sim.clients[c].ever_injected && !sess.disconnect_requested {
+            // Default protocol check, same protocol, link quiet: the handshake must have completed.
+            let d = format!("client {c} session {} runs the server's protocol and its link is quiet, but it never became authorized (hash delivered: {})", sess.id, sess.hash_delivered);
+            v.push(("C14", "matching_client_never_authorized", d.clone()));
+            v.push(("C01", "client_never_authorized", d.clone()));
+            if sess.after_crash {
+                v.push(("C09", "client_never_authorized", format!("[session after a disconnect / restart] {d}")));
+            }
+        }
         if !sess.up() || !sess.authorized || !running {
             continue;
         }
